@@ -282,6 +282,13 @@ def _get_exc(spec):
     raise KeyError
 
 
+def _far(far_loss, f):
+    """broadcast the per-observer far-field allowance to the result array (.., n_obs, 3)"""
+    shape = [1] * f.ndim
+    shape[-2] = f.shape[-2]
+    return far_loss.reshape(shape)
+
+
 def _run_linear(case, ctx):
     magpy = build.magpy
     fn = getattr(magpy, "get" + case["field"])
@@ -326,15 +333,19 @@ def _run_linear(case, ctx):
     loose = spec["cls"] in ("CylinderSegment", "Cylinder")
     tol_add = 1e-7 if loose else 1e-10
     tol = 1e-7 if loose else (1e-12 if case["akind"] in ("pow2", "zero", "neg1") else 1e-10)
+    # documented loss of precision at large distances (DESIGN.md 4.6): c_far * eps * (d/L)^3 per observer
+    body_ = geom.body_from_spec(spec)
+    dl = np.array([float(body_.dist(np.asarray(o["local"])[None])[0]) / body_.L for o in case["observers"]])
+    far_loss = (100.0 * np.finfo(float).eps * dl**3)[None, None, None, :, None] if False else 100.0 * np.finfo(float).eps * dl**3
     # scale per observer: magnitude of the field vector there (components may cancel to ~0)
     sc = abs(a) * np.max(np.abs(f1), axis=-1, keepdims=True) + 1e-300
     sc = np.maximum(sc, float(np.max(sc)) * 1e-9) * np.ones_like(f1)
     with np.errstate(invalid="ignore"):
-        bad = ~(np.abs(fa - a * f1) <= tol * sc) & ~(np.isnan(fa) & np.isnan(f1))
+        bad = ~(np.abs(fa - a * f1) <= (tol + _far(far_loss, f1)) * sc) & ~(np.isnan(fa) & np.isnan(f1))
     if np.any(bad):
         noise = 20.0 * (abs(a) * spread_of(x1) + spread_of(a * x1))
         with np.errstate(invalid="ignore"):
-            bad = ~(np.abs(fa - a * f1) <= tol * sc + noise) & ~(np.isnan(fa) & np.isnan(f1))
+            bad = ~(np.abs(fa - a * f1) <= (tol + _far(far_loss, f1)) * sc + noise) & ~(np.isnan(fa) & np.isnan(f1))
         if not np.any(bad):
             ctx.label("illconditioned_tolerated")
     if np.any(bad):
@@ -344,11 +355,11 @@ def _run_linear(case, ctx):
     sc2 = np.max(np.abs(f1), axis=-1, keepdims=True) + np.max(np.abs(f2), axis=-1, keepdims=True) + 1e-300
     sc2 = np.maximum(sc2, float(np.max(sc2)) * 1e-9) * np.ones_like(f1)
     with np.errstate(invalid="ignore"):
-        bad = ~(np.abs(f12 - (f1 + f2)) <= tol_add * sc2) & ~(np.isnan(f12) & (np.isnan(f1) | np.isnan(f2)))
+        bad = ~(np.abs(f12 - (f1 + f2)) <= (tol_add + _far(far_loss, f1)) * sc2) & ~(np.isnan(f12) & (np.isnan(f1) | np.isnan(f2)))
     if np.any(bad):
         noise = 20.0 * (spread_of(x1) + spread_of(x2) + spread_of(x1 + x2))
         with np.errstate(invalid="ignore"):
-            bad = ~(np.abs(f12 - (f1 + f2)) <= tol_add * sc2 + noise) & ~(np.isnan(f12) & (np.isnan(f1) | np.isnan(f2)))
+            bad = ~(np.abs(f12 - (f1 + f2)) <= (tol_add + _far(far_loss, f1)) * sc2 + noise) & ~(np.isnan(f12) & (np.isnan(f1) | np.isnan(f2)))
         if not np.any(bad):
             ctx.label("illconditioned_tolerated")
     if np.any(bad):
